@@ -3,9 +3,10 @@ CONSTANTS
  MaxW = 2
  Tasks <- MC_Tasks
  Children <- MC_Children
+ Needs <- MC_Needs
  Clients <- MC_Clients
  Script <- MC_Script
- Guarded = TRUE
+ Variant = "code"
  RecordHist = FALSE
 INVARIANTS TypeOK AtMostOnce NoDrop NoDupInQueue NoLostTask WaitAllOK JoinAllOK
 CHECK_DEADLOCK FALSE
